@@ -870,4 +870,219 @@ theorem coordPos_triangle_eq_locate (a b c p : Pt) :
 example : coordPos (.triangle ⟨0, 0⟩ ⟨2, 0⟩ ⟨0, 2⟩) ⟨0, 1⟩ = .onBoundary := by
   rw [coordPos_triangle_eq_locate]; decide +kernel
 
+/-! ### Rect -/
+
+theorem lineCoord_vert (x y1 y2 : Rat) (p : Pt) :
+    lineCoord ⟨x, y1⟩ ⟨x, y2⟩ p = true ↔
+      p.x = x ∧ ((y1 ≤ p.y ∧ p.y ≤ y2) ∨ (y2 ≤ p.y ∧ p.y ≤ y1)) := by
+  rw [lineCoord_eq, pointInRect_iff]
+  simp only [cross]
+  constructor
+  · rintro ⟨_, hx, hy⟩
+    refine ⟨?_, hy⟩
+    rcases hx with h1 | h1 <;> linarith
+  · rintro ⟨hx, hy⟩
+    exact ⟨by rw [hx]; ring, Or.inl ⟨hx.ge, hx.le⟩, hy⟩
+
+theorem lineCoord_horiz (x1 x2 y : Rat) (p : Pt) :
+    lineCoord ⟨x1, y⟩ ⟨x2, y⟩ p = true ↔
+      p.y = y ∧ ((x1 ≤ p.x ∧ p.x ≤ x2) ∨ (x2 ≤ p.x ∧ p.x ≤ x1)) := by
+  rw [lineCoord_eq, pointInRect_iff]
+  simp only [cross]
+  constructor
+  · rintro ⟨_, hx, hy⟩
+    refine ⟨?_, hx⟩
+    rcases hy with h1 | h1 <;> linarith
+  · rintro ⟨hy, hx⟩
+    exact ⟨by rw [hy]; ring, hx, Or.inl ⟨hy.ge, hy.le⟩⟩
+
+/-- the four edges of `Rect::to_polygon` contain `p` exactly when `p` is in the closed box and on
+one of the four bounding lines -/
+theorem rect_onSeg (a b c d : Rat) (p : Pt) (hac : a < c) (hbd : b < d) :
+    onAnySeg p (segs (SM.rectToPolygon ⟨⟨a, b⟩, ⟨c, d⟩⟩)) = true ↔
+      ¬ p.x < a ∧ ¬ c < p.x ∧ ¬ p.y < b ∧ ¬ d < p.y ∧ (p.x ≤ a ∨ p.y ≤ b ∨ c ≤ p.x ∨ d ≤ p.y) := by
+  have hs : segs (SM.rectToPolygon ⟨⟨a, b⟩, ⟨c, d⟩⟩) =
+      [(⟨c, b⟩, ⟨c, d⟩), (⟨c, d⟩, ⟨a, d⟩), (⟨a, d⟩, ⟨a, b⟩), (⟨a, b⟩, ⟨c, b⟩)] := rfl
+  rw [hs]
+  simp only [onAnySeg, List.any_cons, List.any_nil, Bool.or_false, Bool.or_eq_true,
+    lineCoord_vert, lineCoord_horiz, not_lt]
+  constructor
+  · rintro (⟨h1, h2 | h2⟩ | ⟨h1, h2 | h2⟩ | ⟨h1, h2 | h2⟩ | ⟨h1, h2 | h2⟩)
+    all_goals first
+      | (exfalso; linarith [h2.1, h2.2])
+      | (refine ⟨by linarith [h2.1, h2.2], by linarith [h2.1, h2.2], by linarith [h2.1, h2.2],
+          by linarith [h2.1, h2.2], ?_⟩
+         first
+          | (left; linarith)
+          | (right; left; linarith)
+          | (right; right; left; linarith)
+          | (right; right; right; linarith))
+  · rintro ⟨h1, h2, h3, h4, h5 | h5 | h5 | h5⟩
+    · right; right; left; exact ⟨le_antisymm h5 h1, Or.inr ⟨h3, h4⟩⟩
+    · right; right; right; exact ⟨le_antisymm h5 h3, Or.inl ⟨h1, h2⟩⟩
+    · left; exact ⟨le_antisymm h2 h5, Or.inl ⟨h3, h4⟩⟩
+    · right; left; exact ⟨le_antisymm h4 h5, Or.inr ⟨h1, h2⟩⟩
+
+theorem rect_winding (a b c d : Rat) (p : Pt) (hac : a < c) (hbd : b < d) :
+    windingE (EPt.ofPt p) (SM.rectToPolygon ⟨⟨a, b⟩, ⟨c, d⟩⟩) ≠ 0 ↔
+      ¬ p.y < b ∧ ¬ d ≤ p.y ∧ ¬ p.x < a ∧ ¬ c ≤ p.x := by
+  have hs : segs (SM.rectToPolygon ⟨⟨a, b⟩, ⟨c, d⟩⟩) =
+      [(⟨c, b⟩, ⟨c, d⟩), (⟨c, d⟩, ⟨a, d⟩), (⟨a, d⟩, ⟨a, b⟩), (⟨a, b⟩, ⟨c, b⟩)] := rfl
+  rw [windingE_ofPt, hs]
+  simp only [List.map_cons, List.map_nil, List.sum_cons, List.sum_nil, add_zero]
+  have hdb : 0 < d - b := by linarith
+  have e1 : ptInc p ⟨c, b⟩ ⟨c, d⟩ = if b ≤ p.y ∧ p.y < d ∧ p.x < c then 1 else 0 := by
+    have hc : cross ⟨c, b⟩ ⟨c, d⟩ p = (d - b) * (c - p.x) := by simp only [cross]; ring
+    unfold ptInc
+    rw [hc]
+    by_cases h1 : b ≤ p.y
+    · by_cases h2 : p.y < d
+      · by_cases h3 : p.x < c
+        · have : 0 < (d - b) * (c - p.x) := mul_pos hdb (by linarith)
+          simp [h1, h2, h3, this]
+        · have : ¬ 0 < (d - b) * (c - p.x) := by
+            intro h; have := mul_nonneg hdb.le (sub_nonneg.mpr (not_lt.mp h3)); nlinarith
+          simp [h1, h2, h3, this]
+      · simp [h1, h2]
+    · have : ¬ d ≤ p.y := by intro h; linarith
+      simp [h1, this]
+  have e2 : ptInc p ⟨c, d⟩ ⟨a, d⟩ = 0 := by
+    unfold ptInc
+    by_cases h1 : d ≤ p.y
+    · have : ¬ p.y < d := by linarith
+      simp [h1, this]
+    · simp [h1]
+  have e3 : ptInc p ⟨a, d⟩ ⟨a, b⟩ = if b ≤ p.y ∧ p.y < d ∧ p.x < a then -1 else 0 := by
+    have hc : cross ⟨a, d⟩ ⟨a, b⟩ p = (d - b) * (p.x - a) := by simp only [cross]; ring
+    unfold ptInc
+    rw [hc]
+    by_cases h1 : d ≤ p.y
+    · have h2 : ¬ p.y < b := by linarith
+      have h3 : ¬ p.y < d := by linarith
+      simp [h1, h2, h3]
+    · by_cases h2 : b ≤ p.y
+      · by_cases h3 : p.x < a
+        · have : (d - b) * (p.x - a) < 0 := by
+            have := mul_pos hdb (sub_pos.mpr h3); nlinarith
+          simp [h1, h2, h3, this, not_le.mp h1]
+        · have : ¬ (d - b) * (p.x - a) < 0 := by
+            intro h; have := mul_nonneg hdb.le (sub_nonneg.mpr (not_lt.mp h3)); linarith
+          simp [h1, h2, h3, this]
+      · simp [h1, h2]
+  have e4 : ptInc p ⟨a, b⟩ ⟨c, b⟩ = 0 := by
+    unfold ptInc
+    by_cases h1 : b ≤ p.y
+    · have : ¬ p.y < b := by linarith
+      simp [h1, this]
+    · simp [h1]
+  rw [e1, e2, e3, e4]
+  by_cases y1 : p.y < b
+  · have : ¬ b ≤ p.y := by linarith
+    simp [y1, this]
+  by_cases y4 : d ≤ p.y
+  · have : ¬ p.y < d := by linarith
+    simp [y4, this]
+  by_cases x1 : p.x < a
+  · have : p.x < c := by linarith
+    simp [y1, y4, x1, this, not_lt.mp y1, not_le.mp y4]
+  by_cases x4 : c ≤ p.x
+  · have : ¬ p.x < c := by linarith
+    simp [y1, y4, x1, x4, this]
+  · simp [y1, y4, x1, x4, not_lt.mp y1, not_le.mp y4, not_le.mp x4]
+
+theorem calcRect_eq (a b c d : Rat) (p : Pt) :
+    (calcRect ⟨a, b⟩ ⟨c, d⟩ p ⟨false, 0⟩).result =
+      if p.x < a ∨ p.y < b ∨ c < p.x ∨ d < p.y then .outside
+      else if p.x ≤ a ∨ p.y ≤ b ∨ c ≤ p.x ∨ d ≤ p.y then .onBoundary else .inside := by
+  unfold calcRect
+  simp only
+  by_cases h1 : p.x < a
+  · simp [h1, PosAcc.result]
+  by_cases h2 : p.y < b
+  · simp [h1, h2, PosAcc.result]
+  by_cases h3 : c < p.x
+  · simp [h1, h2, h3, PosAcc.result]
+  by_cases h4 : d < p.y
+  · simp [h1, h2, h3, h4, PosAcc.result]
+  rw [if_neg h1, if_neg h2, if_neg h3, if_neg h4,
+    if_neg (show ¬(p.x < a ∨ p.y < b ∨ c < p.x ∨ d < p.y) by tauto)]
+  have q1 : (p.x == a) = decide (p.x ≤ a) := by
+    by_cases h : p.x = a
+    · simp [h]
+    · have : ¬ p.x ≤ a := fun h' => h (le_antisymm h' (not_lt.mp h1))
+      simp [h, this]
+  have q2 : (p.y == b) = decide (p.y ≤ b) := by
+    by_cases h : p.y = b
+    · simp [h]
+    · have : ¬ p.y ≤ b := fun h' => h (le_antisymm h' (not_lt.mp h2))
+      simp [h, this]
+  have q3 : (c == p.x) = decide (c ≤ p.x) := by
+    by_cases h : c = p.x
+    · simp [h]
+    · have : ¬ c ≤ p.x := fun h' => h (le_antisymm h' (not_lt.mp h3))
+      simp [h, this]
+  have q4 : (d == p.y) = decide (d ≤ p.y) := by
+    by_cases h : d = p.y
+    · simp [h]
+    · have : ¬ d ≤ p.y := fun h' => h (le_antisymm h' (not_lt.mp h4))
+      simp [h, this]
+  rw [q1, q2, q3, q4]
+  by_cases h : p.x ≤ a ∨ p.y ≤ b ∨ c ≤ p.x ∨ d ≤ p.y
+  · rw [if_pos h]
+    have : (decide (p.x ≤ a) || decide (p.y ≤ b) || decide (c ≤ p.x) || decide (d ≤ p.y)) = true := by
+      simpa [or_assoc] using h
+    rw [if_pos this]; simp [PosAcc.result]
+  · rw [if_neg h]
+    have : ¬ (decide (p.x ≤ a) || decide (p.y ≤ b) || decide (c ≤ p.x) || decide (d ≤ p.y)) = true := by
+      simpa [or_assoc] using h
+    rw [if_neg this]; simp [PosAcc.result]
+
+/-- `coordinate_position` of a non-degenerate Rect is the specification's location on the ring of
+`Rect::to_polygon`. -/
+theorem coordPos_rect_eq_locate (mn mx p : Pt) (hx : mn.x < mx.x) (hy : mn.y < mx.y) :
+    coordPos (.rect mn mx) p = locate (.rect mn mx) p := by
+  obtain ⟨a, b⟩ := mn
+  obtain ⟨c, d⟩ := mx
+  simp only at hx hy
+  have hl : locate (.rect ⟨a, b⟩ ⟨c, d⟩) p =
+      locateParts ⟨[], [], [⟨SM.rectToPolygon ⟨⟨a, b⟩, ⟨c, d⟩⟩, []⟩]⟩ p := rfl
+  have hne : (SM.rectToPolygon ⟨⟨a, b⟩, ⟨c, d⟩⟩ == [p]) = false := by simp [SM.rectToPolygon]
+  have hc : coordPos (.rect ⟨a, b⟩ ⟨c, d⟩) p = (calcRect ⟨a, b⟩ ⟨c, d⟩ p ⟨false, 0⟩).result := by
+    simp only [coordPos, calcPos]
+  rw [hl, locateParts_ring, hne, hc, calcRect_eq]
+  have hS := rect_onSeg a b c d p hx hy
+  have hW := rect_winding a b c d p hx hy
+  by_cases hs : onAnySeg p (segs (SM.rectToPolygon ⟨⟨a, b⟩, ⟨c, d⟩⟩)) = true
+  · rw [hs]
+    obtain ⟨h1, h2, h3, h4, h5⟩ := hS.mp hs
+    rw [if_neg (by tauto), if_pos h5]
+    simp
+  · have hs' : onAnySeg p (segs (SM.rectToPolygon ⟨⟨a, b⟩, ⟨c, d⟩⟩)) = false := by simpa using hs
+    rw [hs']
+    rw [hS] at hs
+    simp only [Bool.not_false, Bool.true_and, Bool.or_false, bne_iff_ne, Bool.false_eq_true, if_false]
+    by_cases hw : windingE (EPt.ofPt p) (SM.rectToPolygon ⟨⟨a, b⟩, ⟨c, d⟩⟩) ≠ 0
+    · rw [if_pos hw]
+      obtain ⟨y1, y4, x1, x4⟩ := hW.mp hw
+      have h5 : ¬ (p.x ≤ a ∨ p.y ≤ b ∨ c ≤ p.x ∨ d ≤ p.y) := by
+        intro h5
+        apply hs
+        refine ⟨x1, by intro h; exact x4 h.le, y1, by intro h; exact y4 h.le, h5⟩
+      rw [if_neg (by intro h; rcases h with h | h | h | h <;> [exact x1 h; exact y1 h; exact x4 h.le; exact y4 h.le]),
+        if_neg h5]
+    · rw [if_neg hw]
+      rw [hW] at hw
+      by_cases hout : p.x < a ∨ p.y < b ∨ c < p.x ∨ d < p.y
+      · rw [if_pos hout]
+      · exfalso
+        simp only [not_or] at hout
+        obtain ⟨o1, o2, o3, o4⟩ := hout
+        by_cases h5 : p.x ≤ a ∨ p.y ≤ b ∨ c ≤ p.x ∨ d ≤ p.y
+        · exact hs ⟨o1, o3, o2, o4, h5⟩
+        · simp only [not_or] at h5
+          exact hw ⟨o2, h5.2.2.2, o1, h5.2.2.1⟩
+
+example : coordPos (.rect ⟨0, 0⟩ ⟨2, 3⟩) ⟨2, 1⟩ = locate (.rect ⟨0, 0⟩ ⟨2, 3⟩) ⟨2, 1⟩ :=
+  coordPos_rect_eq_locate _ _ _ (by norm_num) (by norm_num)
+
 end Geo.Proofs.Loc
